@@ -1557,6 +1557,13 @@ class Executor:
                 for x, y in ((a, b), (b, a)):
                     if y == ("const", None) and x[0] in ("list", "tuple", "dict", "set", "mkevent", "fstr", "func", "lambda", "kindcls", "partial", "replace"):
                         return op in ("IsNot", "NotEq")
+                    # type(<a builtin class>) is type / type(<a constant>) is <its class>
+                    if x[0] == "call" and x[1] == ("builtin", "type") and len(x[2]) == 1 and y[0] == "builtin":
+                        z = x[2][0]
+                        if z[0] == "builtin" and z[1] in TYPE_BUILTINS:
+                            return (y[1] == "type") == (op in ("Is", "Eq"))
+                        if z[0] == "const":
+                            return (type(z[1]).__name__ == y[1]) == (op in ("Is", "Eq"))
             if a[0] == "const" and b[0] == "const":
                 try:
                     return _fold_cmp(op, a[1], b[1])
